@@ -535,3 +535,15 @@ func readFileCached(name string) ([]byte, error) {
 	}
 	return b, err
 }
+
+// modulePkgs lists the module-relative paths of every loaded package of the module that has SSA (sorted).
+func (c *Ctx) modulePkgs() []string {
+	var out []string
+	for p := range c.SSA {
+		if strings.HasPrefix(p, modPath+"/") {
+			out = append(out, strings.TrimPrefix(p, modPath+"/"))
+		}
+	}
+	sort.Strings(out)
+	return out
+}
